@@ -792,6 +792,8 @@ class Interp(Engine):
             return PMap(z3.If(c, a.m, b.m))
         if isinstance(a, PHist) and isinstance(b, PHist):
             return PHist(z3.If(c, a.h, b.h))
+        if isinstance(a, PEvent) and isinstance(b, PEvent):
+            return PEvent(z3.If(c, a.e, b.e))
         if isinstance(a, PRaw) and isinstance(b, PRaw):
             return PRaw(z3.If(c, a.t, b.t))
         return SV(z3.If(c, self.to_term(a, node), self.to_term(b, node)), None)
@@ -1143,6 +1145,9 @@ class Interp(Engine):
             return TupV(out)
         if g.ifs:
             return self.filter_comprehension(node, kind, it)
+        eff = self.sink_comprehension(node, kind, it)
+        if eff is not None:
+            return eff
         return self.map_comprehension(node, kind, it)
 
     def _static_true(self, c):
@@ -1208,6 +1213,68 @@ class Interp(Engine):
             return self.new_list(out)
         if kind == "set":
             self.unsupported(node, "set comprehension")
+        res = PSeq(out)
+        res.defn = (n, j, body)      # pointwise definition, for consumers such as any()/all()
+        return res
+
+    def sink_comprehension(self, node, kind, it):
+        """(x.m(*a, **k) for x in sinks) / (getattr(x, name)(*a, **k) for x in sinks) over abstract event sinks:
+        one identical call event per element, in order (fold `deliver`)."""
+        from .calls import deliver
+        g = node.generators[0]
+        elt = node.elt
+        if self.spec_mode or not isinstance(g.target, ast.Name) or not isinstance(elt, ast.Call):
+            return None
+        var = g.target.id
+        f = elt.func
+        name_term = None
+        if isinstance(f, ast.Attribute) and isinstance(f.value, ast.Name) and f.value.id == var:
+            name_term = z3.StringVal(f.attr)
+            mname = f.attr
+        elif isinstance(f, ast.Call) and isinstance(f.func, ast.Name) and f.func.id == "getattr" and len(f.args) == 2 \
+                and isinstance(f.args[0], ast.Name) and f.args[0].id == var:
+            nv = self.ev(f.args[1])
+            name_term = self.as_str(nv, node)
+            mname = None
+        if name_term is None:
+            return None
+        for sub in ast.walk(ast.Module(body=[ast.Expr(a) for a in elt.args] + [ast.Expr(k.value) for k in elt.keywords], type_ignores=[])):
+            if isinstance(sub, ast.Name) and sub.id == var:
+                return None
+        et = self.elem_tag(it)
+        if et not in self.reg.shapes:
+            return None
+        c = self.reg.shape_method(et, mname) if mname else None
+        if c is None:
+            c = self.reg.shape_method(et, "__getattr__")
+        if c is None or c.event is not True or c.exsures is not None or c.ensures or c.modifies or c.requires or c.signature:
+            return None
+        self.used_contracts.add(c.target)
+        args, star = [], None
+        for a in elt.args:
+            if isinstance(a, ast.Starred):
+                sv = self.ev(a.value)
+                if isinstance(sv, TupV) and star is None:
+                    args.extend(sv.items)
+                else:
+                    star = sv
+            else:
+                args.append(self.ev(a))
+        kwargs, dstar = {}, None
+        for k in elt.keywords:
+            if k.arg is None:
+                dstar = self.ev(k.value)
+            else:
+                kwargs[k.arg] = self.ev(k.value)
+        pseq, kw = self.call_payload(args, kwargs, node, star, dstar)
+        seq = self.as_seq(it, node)
+        e = Event.ev(name_term, pseq, kw)
+        self.set_comp("$hist", deliver(self.comp("$hist"), seq, e, z3.Length(seq)))
+        self.set_comp("$G", so.fresh("map_G", GHist))
+        out = so.fresh("sinkres", SeqV)
+        self.assume(z3.Length(out) == z3.Length(seq))
+        if kind == "list":
+            return self.new_list(out)
         return PSeq(out)
 
     def filter_comprehension(self, node, kind, it):
